@@ -129,17 +129,22 @@ CHECKS = {
         technique="Coq proof (case analysis over all fault points of the step model, induction over copy blocks) on a model whose format table is translated from the source + vm_compute correspondence with exhaustive fault injection",
         design="5/C12"),
     "C13": dict(
-        text=("Theorems (closed under the global context) about list models of the compaction in Collocator._create_return, "
-              "_rows_for_secondaries, the NaN-padded bin matrix of collapse, expand and concat_collocations, for every compact "
-              "dataset: pairs are valid indices and every stored point occurs; rows are running counts; column c of the bin matrix "
-              "holds exactly the partner values of reference c then padding (any lane of any extra dimension, either reference), "
-              "hence any padding-ignoring collapser sees exactly the partner multiset; expand gives one row per pair with that "
-              "pair's values; expand(concat ds) = concat (map expand ds) and concat keeps the invariant; the boolean invariant "
-              "checker applied to implementation outputs is proved sound and complete. Tie: the real expand / collapse / "
-              "concat_collocations / Collocator.collocate on generated datasets; Coq returns positions, the harness compares id "
-              "rows exactly and statistics against long-double sums."),
-        note=COMMON_NOTE + " xarray selection/concat and numpy nan-statistics are modelled as list operations and exercised; the numba row-assignment variant is not installed here.",
-        technique="Coq proof (induction over pair lists) + vm_compute correspondence with a certified boolean checker",
+        text=("21 theorems about list models of the compaction in Collocator._create_return, _rows_for_secondaries, the NaN-padded "
+              "bin matrix of collapse, expand and concat_collocations, for every compact dataset (these closed under the global "
+              "context): pairs are valid indices and every stored point occurs; rows are running counts; column c of the bin matrix "
+              "holds exactly the partner values of reference c then padding (any lane of any extra dimension, either reference); "
+              "expand gives one row per pair with that pair's values; expand(concat ds) = concat (map expand ds) and concat keeps "
+              "the invariant; the boolean invariant checker is sound and complete. The statistics clause is a theorem over the reals "
+              "(collapse_mean_std_number): with scalars as option R (None = NaN, padding and data alike) the fields of a call "
+              "without custom functions are exactly mean, std, number and equal sum/n, sqrt(sum of squared deviations/n) and n over "
+              "the non-NaN partner values of every reference point, lane and reference; they are NaN/NaN/0 exactly when all partner "
+              "values are NaN; they are invariant under any rearrangement of the pair list; a custom function replaces only the "
+              "default of its own name; a call is a function of (dataset, reference, custom functions) only. Tie: the real expand / "
+              "collapse / concat_collocations / Collocator.collocate on generated datasets and call histories (custom, overriding, "
+              "plain, rearranged pairs, other reference); Coq returns positions, per-lane counts of valid values and field names; "
+              "the harness compares id rows, <var>_number, NaN-ness and field names exactly and mean/std against long-double sums."),
+        note=COMMON_NOTE + " xarray selection/concat and numpy nan-statistics are modelled as list operations and exercised (rounding of nanmean/nanstd compared at 1e-9, infinities not generated); collapse_call_independent holds by construction in the stateless model, the call histories are its tie; the numba row-assignment variant is not installed here; real-number axioms and funext in the statistics theorems.",
+        technique="Coq proof (induction over pair lists, permutations, real arithmetic on option R) + vm_compute correspondence with a certified boolean checker and exact count / NaN masks",
         design="5/C13"),
     "C15": dict(
         text=("Theorems (closed under the global context): crash_safe - after EVERY prefix of the primitive I/O sequence of "
@@ -209,20 +214,27 @@ CHECKS = {
         technique="Coq proof (NoDup/Permutation refinement to the brute-force collocation; invariants of the bundling loop; queue transition system over all interleavings with liveness by an explicit scheduler and a decreasing measure, exact characterisation of weaker parents) + end-to-end differential runs with schedule perturbations and queue traces evaluated in Coq",
         design="5/C05"),
     "C11": dict(
-        text=("Theorems (closed under the global context) about an executable model of FileSet write / read / collect / find / move / "
-              "copy / convert / delete on a disk = finite map path -> content, file names from the proved C02 renderer/parser and "
+        text=("23 theorems (closed under the global context) about an executable model of FileSet write / read / collect / find / move "
+              "/ copy / convert / delete on a disk = finite map path -> content, file names from the proved C02 renderer/parser and "
               "compression decided as in files/utils.py: move_conserves (with pairwise distinct fresh target names every selected "
               "file ends under exactly the name the target template generates from its own times and placeholder values, with the "
               "same bytes or the bytes recoded through both handlers, originals removed iff not copy, every other path unchanged), "
               "progress, write_read and convert_reads_back (read_args / write_args / post_reader and (de)compression as "
-              "composition), written_is_found (exact period, via C02), selection_exact, delete_exact, dry_run_noop, and frame "
-              "theorems lifted by induction to all operation histories. Handlers (pickle / JSON user handlers, typhon CSV, typhon "
-              "NetCDF4) and codecs are Section variables assumed only to round-trip; their fidelity is exercised, not proved. Tie: "
-              "random histories on real FileSets in child processes; after every operation the whole tree is canonicalised "
-              "independently of typhon and compared with the model's step evaluated inside Coq; values read back are compared with "
-              "what was written. Not proved: written_is_found for partially written end fields; independence of worker scheduling (C10)."),
+              "composition), written_is_found for every way of spelling the end that C02 proves - complete end, only sub-day end "
+              "fields (found under exactly [s, e] whenever 0 <= e - s < the unit above the coarsest spelt end field, under the "
+              "rolled period otherwise, never under another one), no end fields (time_coverage) -, selection_exact, delete_exact, "
+              "dry_run_noop, empty_selection_noop (files=[] selects nothing), read_with_args / write_with_args / calls_keep_object / "
+              "args_do_not_stick (a call's own keyword arguments override the defaults for that call only; the object is unchanged "
+              "over every history of calls), and frame theorems lifted by induction to all operation histories. Handlers (pickle / "
+              "JSON user handlers, typhon CSV, typhon NetCDF4) and codecs are Section variables assumed only to round-trip; their "
+              "fidelity is exercised, not proved. Tie: random plus directed (year-end) histories on real FileSets in child "
+              "processes; after every operation the whole tree is canonicalised independently of typhon and compared with the "
+              "model's step evaluated inside Coq; values read back are compared with what was written; every written file is looked "
+              "up with find() and must be reported under the period the theorem prescribes; the default argument dictionaries of "
+              "every object are observed after every call. Not proved: end-field sets outside C02's three kinds; independence of "
+              "worker scheduling (C10)."),
         note=COMMON_NOTE + " find() is taken as its brute-force filter (C01); worker pools sequentialised (C10); moves whose target names collide are outside the hypotheses and not compared; NetCDF4 only in the thorough tier, single-threaded, in a child process.",
-        technique="Coq proof (induction over the selected files and over operation histories on a finite-map disk, reuse of the C02 round-trip theorems) + vm_compute correspondence of per-step tree listings from child-process runs of the real FileSet",
+        technique="Coq proof (induction over the selected files, over operation histories and over call histories on a finite-map disk, reuse of the C02 round-trip theorems for all three end kinds) + vm_compute correspondence of per-step tree listings and of laws evaluated on the implementation's output from child-process runs of the real FileSet",
         design="5/C11"),
     "C16": dict(
         text=("Theorems (closed under the global context): the boolean checker closest_ok decides the property's specification for "
